@@ -1,6 +1,7 @@
 import Librfn.Gen.PackSeq
 import Librfn.Model.Pack
 import Std.Tactic.BVDecide
+import Librfn.Gen.Ackermann
 /-!
 # C12 / C13 / C14 — tie T for `pack.c` (sequential meaning of every function the file defines)
 
@@ -38,6 +39,7 @@ theorem pack_s16le_generated (b e p : BitVec 64) (v : BitVec 16) (mem : Gen.Mem)
     (rf_pack_s16le b e p v mem).pack_p = p + 2#64 := by
   unfold wfPk at hwf
   unfold rf_pack_s16le
+  ackermann mem
   bv_decide (config := { timeout := 300 })
 
 theorem pack_s16le_generated_mem (b e p : BitVec 64) (v : BitVec 16) (mem : Gen.Mem) (hwf : wfPk b e p = true) (a : BitVec 64) :
@@ -45,6 +47,7 @@ theorem pack_s16le_generated_mem (b e p : BitVec 64) (v : BitVec 16) (mem : Gen.
   unfold wfPk at hwf
   unfold rf_pack_s16le fitsBV
   simp only [Mem.ite_app, Mem.store_app, byteAt, encS16le, b8, List.getD_cons_zero, List.getD_cons_succ, UInt8.toBitVec_ofBitVec]
+  ackermann mem
   bv_decide (config := { timeout := 300 })
 
 theorem pack_u16be_generated (b e p : BitVec 64) (v : BitVec 16) (mem : Gen.Mem) (hwf : wfPk b e p = true) :
@@ -52,6 +55,7 @@ theorem pack_u16be_generated (b e p : BitVec 64) (v : BitVec 16) (mem : Gen.Mem)
     (rf_pack_u16be b e p v mem).pack_p = p + 2#64 := by
   unfold wfPk at hwf
   unfold rf_pack_u16be
+  ackermann mem
   bv_decide (config := { timeout := 300 })
 
 theorem pack_u16be_generated_mem (b e p : BitVec 64) (v : BitVec 16) (mem : Gen.Mem) (hwf : wfPk b e p = true) (a : BitVec 64) :
@@ -59,6 +63,7 @@ theorem pack_u16be_generated_mem (b e p : BitVec 64) (v : BitVec 16) (mem : Gen.
   unfold wfPk at hwf
   unfold rf_pack_u16be fitsBV
   simp only [Mem.ite_app, Mem.store_app, byteAt, encU16be, b8, List.getD_cons_zero, List.getD_cons_succ, UInt8.toBitVec_ofBitVec]
+  ackermann mem
   bv_decide (config := { timeout := 300 })
 
 theorem pack_u16le_generated (b e p : BitVec 64) (v : BitVec 16) (mem : Gen.Mem) (hwf : wfPk b e p = true) :
@@ -66,6 +71,7 @@ theorem pack_u16le_generated (b e p : BitVec 64) (v : BitVec 16) (mem : Gen.Mem)
     (rf_pack_u16le b e p v mem).pack_p = p + 2#64 := by
   unfold wfPk at hwf
   unfold rf_pack_u16le
+  ackermann mem
   bv_decide (config := { timeout := 300 })
 
 theorem pack_u16le_generated_mem (b e p : BitVec 64) (v : BitVec 16) (mem : Gen.Mem) (hwf : wfPk b e p = true) (a : BitVec 64) :
@@ -73,6 +79,7 @@ theorem pack_u16le_generated_mem (b e p : BitVec 64) (v : BitVec 16) (mem : Gen.
   unfold wfPk at hwf
   unfold rf_pack_u16le fitsBV
   simp only [Mem.ite_app, Mem.store_app, byteAt, encU16le, b8, List.getD_cons_zero, List.getD_cons_succ, UInt8.toBitVec_ofBitVec]
+  ackermann mem
   bv_decide (config := { timeout := 300 })
 
 theorem pack_s32le_generated (b e p : BitVec 64) (v : BitVec 32) (mem : Gen.Mem) (hwf : wfPk b e p = true) :
@@ -80,6 +87,7 @@ theorem pack_s32le_generated (b e p : BitVec 64) (v : BitVec 32) (mem : Gen.Mem)
     (rf_pack_s32le b e p v mem).pack_p = p + 4#64 := by
   unfold wfPk at hwf
   unfold rf_pack_s32le
+  ackermann mem
   bv_decide (config := { timeout := 300 })
 
 theorem pack_s32le_generated_mem (b e p : BitVec 64) (v : BitVec 32) (mem : Gen.Mem) (hwf : wfPk b e p = true) (a : BitVec 64) :
@@ -87,6 +95,7 @@ theorem pack_s32le_generated_mem (b e p : BitVec 64) (v : BitVec 32) (mem : Gen.
   unfold wfPk at hwf
   unfold rf_pack_s32le fitsBV
   simp only [Mem.ite_app, Mem.store_app, byteAt, encS32le, b8, List.getD_cons_zero, List.getD_cons_succ, UInt8.toBitVec_ofBitVec]
+  ackermann mem
   bv_decide (config := { timeout := 300 })
 
 theorem pack_u32le_generated (b e p : BitVec 64) (v : BitVec 32) (mem : Gen.Mem) (hwf : wfPk b e p = true) :
@@ -94,6 +103,7 @@ theorem pack_u32le_generated (b e p : BitVec 64) (v : BitVec 32) (mem : Gen.Mem)
     (rf_pack_u32le b e p v mem).pack_p = p + 4#64 := by
   unfold wfPk at hwf
   unfold rf_pack_u32le
+  ackermann mem
   bv_decide (config := { timeout := 300 })
 
 theorem pack_u32le_generated_mem (b e p : BitVec 64) (v : BitVec 32) (mem : Gen.Mem) (hwf : wfPk b e p = true) (a : BitVec 64) :
@@ -101,6 +111,7 @@ theorem pack_u32le_generated_mem (b e p : BitVec 64) (v : BitVec 32) (mem : Gen.
   unfold wfPk at hwf
   unfold rf_pack_u32le fitsBV
   simp only [Mem.ite_app, Mem.store_app, byteAt, encU32le, b8, List.getD_cons_zero, List.getD_cons_succ, UInt8.toBitVec_ofBitVec]
+  ackermann mem
   bv_decide (config := { timeout := 300 })
 
 theorem unpack_char_generated (b e p : BitVec 64) (mem : Gen.Mem) (hwf : wfPk b e p = true) :
@@ -109,6 +120,7 @@ theorem unpack_char_generated (b e p : BitVec 64) (mem : Gen.Mem) (hwf : wfPk b 
   unfold wfPk at hwf
   unfold rf_unpack_char fitsBV
   simp only [dec16, dec32, UInt8.toBitVec_ofBitVec]
+  ackermann mem
   bv_decide (config := { timeout := 300 })
 
 theorem unpack_char_generated_mem (b e p : BitVec 64) (mem : Gen.Mem) : (rf_unpack_char b e p mem).mem = mem := by
@@ -121,6 +133,7 @@ theorem unpack_s8_generated (b e p : BitVec 64) (mem : Gen.Mem) (hwf : wfPk b e 
   unfold wfPk at hwf
   unfold rf_unpack_s8 fitsBV
   simp only [dec16, dec32, UInt8.toBitVec_ofBitVec]
+  ackermann mem
   bv_decide (config := { timeout := 300 })
 
 theorem unpack_s8_generated_mem (b e p : BitVec 64) (mem : Gen.Mem) : (rf_unpack_s8 b e p mem).mem = mem := by
@@ -133,6 +146,7 @@ theorem unpack_u8_generated (b e p : BitVec 64) (mem : Gen.Mem) (hwf : wfPk b e 
   unfold wfPk at hwf
   unfold rf_unpack_u8 fitsBV
   simp only [dec16, dec32, UInt8.toBitVec_ofBitVec]
+  ackermann mem
   bv_decide (config := { timeout := 300 })
 
 theorem unpack_u8_generated_mem (b e p : BitVec 64) (mem : Gen.Mem) : (rf_unpack_u8 b e p mem).mem = mem := by
@@ -145,6 +159,7 @@ theorem unpack_u16le_generated (b e p : BitVec 64) (mem : Gen.Mem) (hwf : wfPk b
   unfold wfPk at hwf
   unfold rf_unpack_u16le fitsBV
   simp only [dec16, dec32, UInt8.toBitVec_ofBitVec]
+  ackermann mem
   bv_decide (config := { timeout := 300 })
 
 theorem unpack_u16le_generated_mem (b e p : BitVec 64) (mem : Gen.Mem) : (rf_unpack_u16le b e p mem).mem = mem := by
@@ -157,6 +172,7 @@ theorem unpack_u32le_generated (b e p : BitVec 64) (mem : Gen.Mem) (hwf : wfPk b
   unfold wfPk at hwf
   unfold rf_unpack_u32le fitsBV
   simp only [dec16, dec32, UInt8.toBitVec_ofBitVec]
+  ackermann mem
   bv_decide (config := { timeout := 300 })
 
 theorem unpack_u32le_generated_mem (b e p : BitVec 64) (mem : Gen.Mem) : (rf_unpack_u32le b e p mem).mem = mem := by
@@ -190,6 +206,7 @@ theorem pack_bytes_generated (b e p src : BitVec 64) (sz : BitVec 32) (mem : Gen
     (rf_pack_bytes b e p src sz mem).pack_p = p + sz.setWidth 64 := by
   unfold wfPk at hwf
   unfold rf_pack_bytes
+  ackermann mem
   bv_decide (config := { timeout := 300 })
 
 /-- `memcpy(q, p, sz)` / `memset(q, 0, sz)` iff the item fits, address by address (all inputs, `bv_decide`) -/
@@ -202,6 +219,7 @@ theorem pack_bytes_generated_pt (b e p src : BitVec 64) (sz : BitVec 32) (mem : 
   unfold wfPk at hwf
   unfold rf_pack_bytes fitsBV
   simp only [Mem.ite_app, Mem.fill_app_bv, Mem.copy_app_bv]
+  ackermann mem
   bv_decide (config := { timeout := 300 })
 
 theorem pack_bytes_generated_mem (b e p src : BitVec 64) (sz : BitVec 32) (mem : Gen.Mem) (hwf : wfPk b e p = true) :
@@ -219,6 +237,7 @@ theorem unpack_bytes_generated (b e p dst : BitVec 64) (sz : BitVec 32) (mem : G
     (rf_unpack_bytes b e p dst sz mem).pack_p = p + sz.setWidth 64 := by
   unfold wfPk at hwf
   unfold rf_unpack_bytes
+  ackermann mem
   bv_decide (config := { timeout := 300 })
 
 /-- destination = the item if it fits, zeros if not, untouched when NULL; address by address (all inputs, `bv_decide`) -/
@@ -230,6 +249,7 @@ theorem unpack_bytes_generated_pt (b e p dst : BitVec 64) (sz : BitVec 32) (mem 
   unfold wfPk at hwf
   unfold rf_unpack_bytes fitsBV
   simp only [Mem.ite_app, Mem.fill_app_bv, Mem.copy_app_bv]
+  ackermann mem
   bv_decide (config := { timeout := 300 })
 
 theorem unpack_bytes_generated_mem (b e p dst : BitVec 64) (sz : BitVec 32) (mem : Gen.Mem) (hwf : wfPk b e p = true) :
